@@ -115,8 +115,28 @@ def drop_all(r, model, kind):
     return m, "drop-all-%ss" % kind
 
 
-def lost_case(runner, r, oc, reqs, pend, big=False, user_templates=False):
-    model = genlib.rand_model(r, ("sm",) if user_templates else ("sm", "sm", "sm", "proto"), big)
+def uml_in_folders(r):
+    """a synthesised class diagram with operations, generated into namespace folders"""
+    import umlsynth
+    for _ in range(20):
+        spec = umlsynth.rand_spec(r)
+        if any(c["kind"] == "class" and c["ns"] and any(o["name"] != c["name"] for o in c["ops"]) for c in spec["classes"]):
+            break
+    return dict(kind="uml", backend=r.choice(["uml", "umlcs"]), project=genlib.BLOB, diagram=spec["diagram"], ns_folders=True, dclspc="", synth=spec)
+
+
+def drop_an_operation(r, model):
+    m = json.loads(json.dumps(model))
+    cs = [c for c in m["synth"]["classes"] if c["kind"] == "class" and c["ops"] and c["ns"]] or [c for c in m["synth"]["classes"] if c["ops"]]
+    if not cs:
+        return genlib.mutate_model(r, model)
+    c = r.choice(cs)
+    del c["ops"][r.randrange(len(c["ops"]))]
+    return m, "remove-operation-directed"
+
+
+def lost_case(runner, r, oc, reqs, pend, big=False, user_templates=False, uml_folders=False):
+    model = genlib.rand_model(r, ("sm",) if user_templates else ("sm", "sm", "proto", "uml", "uml"), big) if not uml_folders else uml_in_folders(r)
     with scratch() as base:
         kinds = []
         if user_templates:
@@ -132,9 +152,11 @@ def lost_case(runner, r, oc, reqs, pend, big=False, user_templates=False):
             for step in range(r.choice([1, 2])):
                 for rel, data in sorted(e2e.snapshot(real).items()):
                     if not rel.endswith(".LostCode.txt"):
-                        genlib.edit_file(r, os.path.join(real, rel), fraction=0.8)
+                        genlib.edit_file(r, os.path.join(real, rel), fraction=1.0 if uml_folders else 0.8)
                 droppable = [k for k in kinds if k in ("guard", "action")]
-                if droppable and r.random() < 0.35:
+                if uml_folders and step == 0:
+                    model, what = drop_an_operation(r, model)
+                elif droppable and r.random() < 0.35:
                     model, what = drop_all(r, model, r.choice(droppable))
                 elif kinds and r.random() < 0.7:
                     model, what = rename_all(r, model, r.choice(kinds))
@@ -240,7 +262,7 @@ def search():
     runner = genlib.Runner()
     oc = Outcome(PROP)
     for i in range(120):
-        lost_case(runner, r, oc, [], [])
+        lost_case(runner, r, oc, [], [], uml_folders=(i % 3 == 1))
         lost_case(runner, r, oc, [], [], user_templates=True)
         bytes_case(runner, r, oc, [], [])
         if oc.violations:
@@ -262,7 +284,7 @@ def run(tier):
     runner = genlib.Runner()
     reqs, pend = [], []
     for i in range(250 if thorough else 35):
-        lost_case(runner, r, oc, reqs, pend, big=thorough)
+        lost_case(runner, r, oc, reqs, pend, big=thorough, uml_folders=(i % 8 == 5))
         if oc.violations:
             break
     for i in range(120 if thorough else 20):
